@@ -64,6 +64,7 @@ def c03(run):
     run.model_check("MC_Geometry", cfg="MC_Geometry.cfg", timeout=900)
     family_enumerated(run, "valid", "Gen_Valid", "Trace_Valid", gen_cfg=tier_n(run, "Gen_Valid.cfg", "Gen_Valid_full.cfg"))
     family_enumerated(run, "valid", "Gen_Holes", "Trace_Valid", label="holes")
+    family_enumerated(run, "valid", "Gen_MPoly", "Trace_Valid", label="mpoly", gen_cfg=tier_n(run, "Gen_MPoly.cfg", "Gen_MPoly_full.cfg"))
     family_enumerated(run, "valid", "Gen_Rings", "Trace_Valid", label="rings", gen_cfg=tier_n(run, "Gen_Rings.cfg", "Gen_Rings_full.cfg"))
     shapes_stage(run, "valid", "Trace_Valid", lambda c, i: [{"kind": "geom", "w": c["wa"]}])
     family_random(run, "valid", "Trace_Valid", tier_n(run, 12000, 600000))
